@@ -146,8 +146,7 @@ func DateFormatHandle(data interface{}, precision string, fmts string) (string, 
 	case "s":
 		t = time.Unix(v, 0)
 	case "ms":
-		num := v * int64(time.Millisecond)
-		t = time.Unix(0, num)
+		t = time.UnixMilli(v)
 	}
 
 	for key, value := range dateFormatStr {
